@@ -4,13 +4,14 @@ import json, os, glob
 root = "/verif"
 props = [json.loads(l) for l in open(f"{root}/properties.jsonl")]
 checks, claimed = [], set()
+enabled = set(open(f"{root}/checks/ENABLED").read().split())
 for p in props:
     pid = p["id"]; d = f"{root}/checks/{pid.lower()}"
     mp = f"{d}/meta.json"
     if not os.path.exists(mp):
         continue
     m = json.load(open(mp))
-    if m.get("disabled"):
+    if m.get("disabled") or pid not in enabled:
         continue
     claimed.add(pid)
     checks.append({
